@@ -213,7 +213,7 @@ def containment(ck, inp, scn, scripts, fb, done, obsB, faulty, enabled):
         aff = affected(scn, fb)
         unaffected = [i for i in range(len(scn['runs'])) if i not in aff and i not in done]
         removed = [i for i in range(len(scn['runs'])) if i in aff]
-        if unaffected and (removed or rng.random() < 0.2):
+        if unaffected and (removed or rng.random() < (0.1 if ck.tier == "quick" else 0.2)):
             # control: only the unaffected runs, batch scheduler, fresh data file
             wd2 = c04._mkwd(ck)
             sfx = (scn.get('deco') or {}).get('name_suffix', '')
@@ -468,7 +468,7 @@ def run(ck):
             run_scenario(ck, scn, scripts, sched, choices, rng.random() < 0.12, 'enum%d' % n)
     ck.exhaustive = True
     # sampled larger assignments
-    for _ in range(100 if quick else 1500):
+    for _ in range(70 if quick else 1500):
         n = rng.randint(4, 5)
         assign = [rng.choice(BEHAVIOURS) for _ in range(n)]
         share = [rng.randrange(3) for _ in range(n)] if rng.random() < 0.6 else None
